@@ -34,6 +34,11 @@
 //     arrows of the whole derivation are ordered by nesting/position; the check counts how often
 //     the two differ instead of alarming, because the listener contract is the former.
 //   - Arrows naming an %interface category and `-> __ignoreContent` are never events.
+//   - A state marker `.name` is no symbol and covers no token: it never moves a range and never
+//     hides an empty symbol before it from the fixWhitespace trimming.
+//   - Grammar.Entries lists the %input declarations; every input has its own derivations
+//     (TreesFrom) and is parsed through its own entry point; `no-eoi` does not change the events of
+//     an exact sentence.
 package extsem
 
 import (
